@@ -569,7 +569,13 @@ func (chs *ClientHelloSpec) FromRaw(raw []byte, ctrlFlags ...bool) error {
 	// the raw ClientHello length
 	for _, ext := range chs.Extensions {
 		if _, ok := ext.(*UtlsPaddingExtension); ok {
-			ext.(*UtlsPaddingExtension).GetPaddingLen = AlwaysPadToLen(len(raw) - 5)
+			// (raw may go on after the ClientHello, e.g. a capture that includes the
+			// client's later records: the length that counts is the message's own)
+			padTo := len(raw) - 5
+			if msgLen := 4 + (int(raw[6])<<16 | int(raw[7])<<8 | int(raw[8])); msgLen < padTo {
+				padTo = msgLen
+			}
+			ext.(*UtlsPaddingExtension).GetPaddingLen = AlwaysPadToLen(padTo)
 			break
 		}
 	}
